@@ -204,6 +204,12 @@ def small_domain_cases(cmd, rng):
                 yield fill_derived(cmd, a, rng)
 
 
+def fresh_str(s):
+    """an equal but distinct string object, as names have that were made at run time (json.loads, parsed text, concatenation)
+    rather than written in source code (those are interned: one object per spelling)"""
+    return "".join(list(s))
+
+
 class IntSub(int):
     """an int subclass, as callers get from enum.IntEnum / IntFlag members or numpy-style wrappers"""
 
